@@ -2,7 +2,6 @@
 //@types dsl/src/diagnostic.rs Location Label Diagnostic
 //@impl dsl/src/diagnostic.rs Label
 //@method span
-//@sigsub "message: impl Into<String>" "message: String"
     ensures r.location.start == span.start, r.location.end == span.end, r.file_id == span.file_id,
 //@end
 //@impl dsl/src/diagnostic.rs Diagnostic
